@@ -30,6 +30,7 @@ func init() {
 		Explain: "Decides reply correlation and stream well-formedness structurally: every responseHeader built anywhere in the agent package takes Seq from the handler's seq parameter (which at every call site is the request header's Seq) or from a stream's seq field (written only by its constructor from the seq argument); an event stream enqueues an event only behind some filter's Invoke(e)==true, non-blockingly, and has one consumer goroutine; a query stream emits an ack/response record only for a value actually received from the query's channels (receives from closable channels are comma-ok with the not-ok edge leaving the case without emitting), builds records only from received values, and sends the completion record only from the timer case, after which it returns.",
 		Run:     runC25,
 		Mutants: []Mutant{
+			{Name: "expired-query-not-streamed", File: "cmd/serf/command/agent/ipc_event_stream.go", Func: "func (es *eventStream) sendQuery(", Old: "\tid := es.client.RegisterQuery(q)\n", New: "\tid := es.client.RegisterQuery(q)\n\tif id == 0 {\n\t\treturn nil\n\t}\n", Expect: "R6|sendQuery:always-sends"},
 			{Name: "request-header-reused", File: "cmd/serf/command/agent/ipc.go", Func: "func (i *AgentIPC) handleClient(", Old: "\tfor {\n", New: "\tvar reqHeader requestHeader\n\tfor {\n", Old2: "\t\tvar reqHeader requestHeader\n", New2: "", Expect: "R5"},
 			{Name: "reply-with-zero-seq", File: "cmd/serf/command/agent/ipc.go", Func: "func (i *AgentIPC) handleStats(", Old: "\t\tSeq:   seq,\n", New: "\t\tSeq:   0,\n", Expect: "R1"},
 			{Name: "stream-seq-from-counter", File: "cmd/serf/command/agent/ipc_query_response_stream.go", Func: "func newQueryResponseStream(", Old: "\t\tseq:    seq,\n", New: "\t\tseq:    seq + 1,\n", Expect: "R1"},
@@ -299,6 +300,54 @@ func runC25(c *an.Ctx) {
 	if hc := am(c, "R5", "AgentIPC", "handleClient"); hc != nil {
 		c.Floor("R5", "request-header decode sites", decodeTargetsFresh(c, "R5", []*ssa.Function{hc}), 1)
 	}
+	c.Rule("R6 consumer side of an event stream: the stream goroutine hands every dequeued event (all implementations of serf.Event) to a send method, and each send method returns only the result of the client's Send of a record built from that event (no path skips the record)")
+	if st := am(c, "R6", "eventStream", "stream"); st != nil {
+		handed := map[string]bool{}
+		for _, call := range an.FindInstrs(st, func(in ssa.Instruction) bool {
+			cc := an.CallOf(in)
+			if cc == nil {
+				return false
+			}
+			f := an.StaticCallee(cc)
+			return f != nil && strings.HasPrefix(an.CalleeName(f), "(*eventStream).send")
+		}) {
+			a := an.CallOf(call).Args
+			p := an.Path(a[1])
+			if strings.HasPrefix(p, "<-$0.eventCh#0.(") && strings.HasSuffix(p, ")#0") {
+				t := strings.TrimSuffix(strings.TrimPrefix(p, "<-$0.eventCh#0.("), ")#0")
+				t = strings.TrimPrefix(strings.TrimPrefix(t, "*"), "serf.")
+				handed[t] = true
+				// nothing but the type of the event decides whether it is sent
+				extra := ""
+				for _, f := range necessaryFacts(st, call) {
+					if strings.HasPrefix(f.L, "<-$0.eventCh#") {
+						continue
+					}
+					extra += f.String() + "; "
+				}
+				c.Add(extra == "", "R6", "stream:sends-every-dequeued:"+t, call, "a dequeued "+t+" is always handed to its send method (other conditions: "+extra+")", "necessary-edge enumeration")
+			}
+		}
+		for _, impl := range eventImpls(c) {
+			c.Add(handed[impl], "R6", "stream:covers:"+impl, st, "the stream goroutine sends events of type "+impl, "type-switch arm enumeration over the implementations of serf.Event")
+		}
+	}
+	nSend := 0
+	for _, name := range []string{"sendMemberEvent", "sendUserEvent", "sendQuery"} {
+		f := am(c, "R6", "eventStream", name)
+		if f == nil {
+			continue
+		}
+		for _, r := range an.Returns(f) {
+			if r.Block().Comment == "recover" {
+				continue
+			}
+			nSend++
+			p := an.Path(an.ResultValues(r)[0])
+			c.Add(strings.HasPrefix(p, "invoke:Send($0.client,"), "R6", name+":always-sends", r, name+" returns only the result of sending the record to the client (got "+short(p)+")", "result provenance of every return")
+		}
+	}
+	c.Floor("R6", "returns of the event-stream send methods", nSend, 3)
 	d := &discharger{c: c}
 	n := 0
 	for _, fn := range c.P.FuncsIn(agent) {
